@@ -21,7 +21,8 @@ IMPL_SRC = ['input(a,b) output(z) z=and(a,b)',
             'input(a,b) output(z) z=buf(a)',
             '',
             'input(a)',
-            'input(a,b) output(q,qn) q=DFF(a,b) qn=not(q)']
+            'input(a,b) output(q,qn) q=DFF(a,b) qn=not(q)',
+            'input(a,b) output(x,y,z) x=and(a,b) y=or(x,b) z=xor(x,a)']
 _impls = []
 
 
